@@ -9,6 +9,7 @@
 * FAST _socket_writer: queue order, and nothing is written while a confirmation is outstanding (invariant W1).
 """
 import ast as pyast
+import os
 
 import z3
 
@@ -118,9 +119,7 @@ def build():
     C.cls("Conn", fields={})
     C.ext("Conn.lost_synch", model=lambda I, env, a, k: (emit(I, "lost_synch"), NONE)[1],
           trusted_reason="marks the chain as out of sync")
-    C.fn("OppHardwarePlatform._bad_crc", params=dict(chain_serial=Str, msg=Seq(Int)),
-         requires=["chain_serial in self.bad_crc"], modifies=["self.bad_crc"], raises={},
-         ensures=[("only the error counter changes", "True")])
+    # (declared below, after the card dictionaries exist: OppHardwarePlatform._bad_crc)
 
     def card_lookup(I, name):
         """inp_addr_dict: chain-address -> input card; one card object stands for whichever entry is looked up"""
@@ -141,6 +140,16 @@ def build():
     C.ext("CardDict.__getitem__", model=inp_getitem, trusted_reason="dict lookup of the input card for an address")
     C.ext("CardDict.__contains__", model=inp_contains, trusted_reason="dict membership of the card address")
     C.classes["OppHardwarePlatform"].fields["inp_addr_dict"] = ObjS("CardDict")
+    C.classes["OppHardwarePlatform"].fields["matrix_inp_addr_dict"] = ObjS("CardDict")
+    C.fn("OppHardwarePlatform._bad_crc", params=dict(chain_serial=Str, msg=Seq(Int)),
+         requires=["chain_serial in self.bad_crc"], modifies=["self.bad_crc"], raises={},
+         emits=lambda I, env, res: None,
+         ensures=[("B1: a frame with a wrong checksum only increments the error counter: it changes no switch state "
+                   "and not the cached input state the NEXT valid report is compared with (otherwise a closure "
+                   "reported right after line noise is lost)",
+                   "n_switch_events() == 0 and self.inp_addr_dict.card.old_state == "
+                   "old(self.inp_addr_dict.card.old_state) and self.matrix_inp_addr_dict.card.old_state == "
+                   "old(self.matrix_inp_addr_dict.card.old_state)")])
 
     C.fn("OppHardwarePlatform.read_gen2_inp_resp", params=dict(chain_serial=Str, msg=Seq(Int)),
          requires=["chain_serial in self.bad_crc", "chain_serial in self.opp_connection", "chain_serial in self._poll_response_received"],
@@ -273,3 +282,189 @@ def build():
     C.assume("chunk independence follows from the per-step relation + exit condition by induction on the number of "
              "<CR> in the stream (stated, DESIGN 4.C14)")
     return C
+
+
+NEURON = "mpf/platforms/fast/communicators/net_neuron.py"
+
+
+def neuron_set():
+    """FAST Neuron: after a valid SA: report MPF's switch states equal the report (bounded report length)"""
+    C = ContractSet("C14b", "FAST switch reports are applied")
+    C.strings = False
+    NB = 1          # every bit of a report byte is a branch of the decoder: 2^8 paths per byte
+    BITAND = z3.Function("py_bitand", z3.IntSort(), z3.IntSort(), z3.IntSort())
+    BITXOR = z3.Function("py_bitxor", z3.IntSort(), z3.IntSort(), z3.IntSort())
+    C.cls("AsyncEvent", fields=dict(flag=Bool))
+    C.ext("AsyncEvent.set", model=lambda I, env, a, k: (I.write_field(env["self"].ref, "flag", VBool(True)),
+                                                        emit(I, "new_switch_data.set"), NONE)[2],
+          trusted_reason="asyncio.Event (A-ASYNCIO)")
+    C.cls("HwSwitch", fields=dict(number=Int))
+    C.cls("FastPlatform", fields=dict(switches_initialized=Bool, new_switch_data=ObjS("AsyncEvent"),
+                                      hw_switch_data=Init(lambda I, n: I.new_dict(()))))
+    C.cls("SwitchController", fields={})
+
+    def pso(I, env, a, k):
+        emit(I, "process_switch_obj", switch=a[0], state=a[1], logical=a[2])
+        return NONE
+    C.ext("SwitchController.process_switch_obj", model=pso, trusted_reason="switch controller entry point (C03)")
+    NS = common.bound(1, 2)
+
+    def switches(I, name):
+        """machine.switches.values(): at most NS switches; each is on this platform or on another one"""
+        this = I.frames[0].env["self"].ref
+        plat = I.read_field(this, "platform")
+        out = []
+        for i in range(I.ctx.fork(NS + 1)):
+            o = I.fresh(ObjS("Switch", hw_state=Int, state=Int, invert=Int, hw_switch=ObjS("HwSwitch")),
+                        "%s[%d]" % (name, i)).ref
+            mine = I.ctx.fork(2) == 0
+            I.heap.data[(o, "platform")] = plat if mine else VObj(Obj("FastPlatform", ObjS("FastPlatform"), "other_platform"))
+            o.mine = mine
+            for f in ("hw_state", "state", "invert"):
+                v = I.force(I.read_field(o, f)).t
+                I.ctx.assume(z3.Or(v == 0, v == 1))
+            out.append(VObj(o))
+        return I.new_list(out, name)
+    C.cls("Switch", fields=dict(hw_state=Int, state=Int, invert=Int, hw_switch=ObjS("HwSwitch"),
+                                platform=ObjS("FastPlatform")))
+    C.cls("SwitchCollection", fields=dict(items_=Init(switches)))
+    C.ext("SwitchCollection.values", model=lambda I, env, a, k: I.read_field(env["self"].ref, "items_"),
+          trusted_reason="DeviceCollection.values(): the switch devices (bounded list)")
+    C.cls("FastSerialCommunicator", fields={})
+    C.cls("FastNetNeuronCommunicator", file=NEURON, bases=["FastSerialCommunicator"], fields=dict(
+        platform=ObjS("FastPlatform"),
+        machine=ObjS("MachineController", switches=ObjS("SwitchCollection"), switch_controller=ObjS("SwitchController"))))
+    C.ext("FastNetNeuronCommunicator.done_processing_msg_response",
+          model=lambda I, env, a, k: (emit(I, "done_processing"), NONE)[1],
+          trusted_reason="FastSerialCommunicator: resumes sending after the awaited response (writer contract: C14 W1)")
+
+    def fromhex(I, a, k):
+        n = I.ctx.fork(NB + 1)
+        bs = []
+        for i in range(n):
+            b = z3.Int(I.fresh_name("sa_byte%d" % i))
+            I.ctx.assume(z3.And(b >= 0, b <= 255))
+            bs.append(b)
+        I.__dict__["c14_sa_bytes"] = bs
+        return I.new_list([VInt(b) for b in bs], I.fresh_name("sa_bytes"))
+    C.globals["bytearray"] = VFn("module", name="bytearray")
+    C.globals["bytearray.fromhex"] = VFn("model", model=fromhex)
+
+    def report_of(I):
+        """the decoded report: switch number -> 1/0 for every bit of the report bytes"""
+        want = {}
+        for off, b in enumerate(I.__dict__.get("c14_sa_bytes", [])):
+            for i in range(8):
+                want[off * 8 + i] = z3.If(BITAND(b, z3.IntVal(2 ** i)) != 0, 1, 0)
+        return want
+
+    def dict_is_report(I, entries):
+        want = report_of(I)
+        got = {}
+        for kk, vv in entries:
+            kc = kk
+            if isinstance(kk, Val):
+                kt = z3.simplify(I.force(kk).t)
+                if not z3.is_int_value(kt):
+                    return z3.BoolVal(False)
+                kc = kt.as_long()
+            got[kc] = vv
+        if sorted(got) != sorted(want):
+            return z3.BoolVal(False)
+        return z3.And([I.force(got[n_]).t == want[n_] for n_ in want] + [z3.BoolVal(True)])
+
+    def sa_applied(I):
+        """the report was stored as the platform's switch data BEFORE the switches were walked, the walk happened
+        exactly once, and the awaited response was marked processed once"""
+        ups = events_named(I, "update_switches")
+        if len(ups) != 1 or len(events_named(I, "done_processing")) != 1:
+            return VBool(False)
+        this = I.frames[0].env["self"].ref
+        plat = I.force(I.read_field(this, "platform")).ref
+        final = I.container(I.force(I.read_field(plat, "hw_switch_data")).ref).entries
+        return VBool(z3.And(dict_is_report(I, ups[0].args["data"]), dict_is_report(I, final)))
+    C.helpers["sa_applied"] = sa_applied
+    C.helpers["n_updates"] = lambda I: VInt(len(events_named(I, "update_switches")))
+
+    def emit_update(I, env, res):
+        plat = I.force(I.read_field(env["self"].ref, "platform")).ref
+        d = I.container(I.force(I.read_field(plat, "hw_switch_data")).ref)
+        emit(I, "update_switches", data=tuple(d.entries))
+
+    def switches_follow_report(I):
+        """every switch of THIS platform ends with hw_state = its reported bit, and its logical change (state xor
+        invert) is handed to the switch controller exactly when it differs from the switch's state; switches of
+        other platforms are not touched"""
+        this = I.frames[0].env["self"].ref
+        coll = I.force(I.read_field(I.force(I.read_field(this, "machine")).ref, "switches")).ref
+        sws = I.container(I.force(I.read_field(coll, "items_", heap=I.old_heap)).ref, heap=I.old_heap).items
+        evs = list(events_named(I, "process_switch_obj"))
+        conj = []
+        for sw in sws:
+            o = I.force(sw).ref
+            hw_old = I.force(I.read_field(o, "hw_state", heap=I.old_heap)).t
+            hw_new = I.force(I.read_field(o, "hw_state")).t
+            if not o.mine:
+                conj.append(hw_new == hw_old)
+                continue
+            num = I.force(I.read_field(I.force(I.read_field(o, "hw_switch")).ref, "number"))
+            rep = I.force(I.getitem(I.read_field(I.force(I.read_field(this, "platform")).ref, "hw_switch_data"), num)).t
+            conj.append(hw_new == rep)
+            logical = BITXOR(I.force(I.read_field(o, "invert")).t, rep)
+            differs = logical != I.force(I.read_field(o, "state")).t
+            mine = [e for e in evs if I.force(e.args["switch"]).ref is o]
+            if len(mine) > 1:
+                return VBool(False)
+            if mine:
+                conj.append(z3.And(differs, I.force(mine[0].args["state"]).t == logical, I.truth(mine[0].args["logical"])))
+            else:
+                conj.append(z3.Not(differs))
+        if any(not I.force(e.args["switch"]).ref.mine for e in evs):
+            return VBool(False)
+        return VBool(z3.And(conj + [z3.BoolVal(True)]))
+    C.helpers["switches_follow_report"] = switches_follow_report
+    C.helpers["n_new_data"] = lambda I: VInt(len(events_named(I, "new_switch_data.set")))
+    C.trace_helpers = {"sa_applied", "n_updates", "switches_follow_report", "n_new_data"}
+
+    def report_dict(I, name):
+        """platform.hw_switch_data covers the switch numbers of the platform's switches (bounded: numbers 0..15)"""
+        return I.new_dict(tuple((i, VInt(z3.Int("%s[%d]" % (name, i)))) for i in range(16)))
+    C.fn("FastNetNeuronCommunicator.update_switches_from_hw_data",
+         params=dict(self=ObjS("FastNetNeuronCommunicator", platform=ObjS("FastPlatform", hw_switch_data=Init(report_dict)))),
+         loops_by_text={"self.machine.switches.values()": LoopSpec(invariant=[], unroll=True)},
+         ensures=[("US1: after a report MPF's switch states equal those of the report", "switches_follow_report()"),
+                  ("waiters are told once that new switch data is there", "n_new_data() == 1")],
+         modifies=["self.machine.switches.items_.**", "self.platform.new_switch_data.flag"],
+         raises={"KeyError": "not all_numbers_in_report()"}, skip_frame=True,
+         emits=emit_update, call_ensures=[],
+         bounded="BOUNDED: at most %d switches, switch numbers 0..15, states in {0, 1}" % NS)
+
+    def all_numbers(I):
+        this = I.frames[0].env["self"].ref
+        coll = I.force(I.read_field(I.force(I.read_field(this, "machine")).ref, "switches")).ref
+        cs = []
+        for sw in I.container(I.force(I.read_field(coll, "items_")).ref).items:
+            n_ = I.force(I.read_field(I.force(I.read_field(I.force(sw).ref, "hw_switch")).ref, "number")).t
+            cs.append(z3.And(n_ >= 0, n_ <= 15))
+        return VBool(z3.And(cs + [z3.BoolVal(True)]))
+    C.helpers["all_numbers_in_report"] = all_numbers
+    C.fn("FastNetNeuronCommunicator._process_sa", params=dict(msg=Const("SA:0E,00")),
+         ensures=[("SA1: every SA: report received after initialisation - also one identical to the previous report - "
+                   "is stored and applied to the switches exactly once: after any sequence of reports and switch "
+                   "events MPF's states equal the LAST report", "implies(old(self.platform.switches_initialized), "
+                                                               "sa_applied())"),
+                  ("before the switches are initialised the data is ignored",
+                   "implies(not old(self.platform.switches_initialized), n_updates() == 0)")],
+         modifies=["self.platform.hw_switch_data", "self.platform.new_switch_data.flag",
+                   "self.machine.switches.items_.**"],
+         raises={"ValueError": True, "KeyError": True}, skip_frame=True,
+         bounded="BOUNDED: reports of at most %d bytes (bits symbolic); the message text is a fixed well-formed "
+                 "'SA:<n>,<hex>' frame whose payload bytes are the symbolic ones" % NB)
+    C.assume("bytearray.fromhex(text) is modelled as a list of symbolic bytes 0..255 (bounded length); whether the hex "
+             "text is well-formed is not decided")
+    C.assume("Python's integer bit operators on symbolic operands are uninterpreted functions (py_bitxor, py_bitand, ...)")
+    return C
+
+
+def build_extra():
+    return [neuron_set()]
